@@ -413,17 +413,54 @@ def fmt7(ctx: Ctx) -> None:
     else:
         ctx.R.fail("FMT-7", mod, f, f"format's documented defaults changed: {defaults}", construct="format defaults")
     rets = [x for x in s.body if isinstance(x, ast.Return)]
-    if rets and norm(rets[0].value) == "''.join(self.format())":
+    def _joined_format(e: ast.AST) -> Optional[bool]:
+        """''.join(<the lines of self.format(), unchanged>)?  True / False (positively something else) / None (not recognised)"""
+        if not (isinstance(e, ast.Call) and isinstance(e.func, ast.Attribute) and e.func.attr == "join" and isinstance(e.func.value, ast.Constant) and len(e.args) == 1):
+            return None
+        if e.func.value.value != "":
+            return False
+        a0 = e.args[0]
+        while isinstance(a0, ast.Call) and isinstance(a0.func, ast.Name) and a0.func.id in ("list", "tuple", "iter") and len(a0.args) == 1:
+            a0 = a0.args[0]
+        if norm(a0) == "self.format()":
+            return True
+        if isinstance(a0, (ast.GeneratorExp, ast.ListComp)) and len(a0.generators) == 1 and norm(a0.generators[0].iter) == "self.format()":
+            g_ = a0.generators[0]
+            return norm(a0.elt) == norm(g_.target) and not g_.ifs          # anything done to a line, or a filter, changes the text
+        return None
+    jf = _joined_format(rets[0].value) if rets and rets[0].value is not None else None
+    if jf:
         ctx.R.ok("FMT-7", "str(x) is the concatenation of format()")
-    else:
+    elif jf is False or not rets:
         ctx.R.fail("FMT-7", mod, s, "__str__ must be ''.join(self.format())")
+    else:
+        ctx.R.undecided("FMT-7", f"__str__ returns `{norm(rets[0].value)[:60]}`")
     # show_contexts=False prints exactly the frame series
     fr = mod.fn("Frame._format")
-    ctxloops = [x for x in ast.walk(fr) if isinstance(x, ast.For) and norm(x.iter) == "self.contexts"]
-    if len(ctxloops) == 1 and [norm(gx) for gx, pol in guards_of(mod, ctxloops[0], fr) if pol] == ["opts.show_contexts"]:
-        ctx.R.ok("FMT-7", "contexts are rendered iff show_contexts")
-    else:
-        ctx.R.fail("FMT-7", mod, fr, "Frame._format must render contexts iff opts.show_contexts", construct="show_contexts guard")
+    # loops over the frame's contexts, or over something made from them
+    derived = {a_.targets[0].id for a_ in walk_scope(fr) if isinstance(a_, ast.Assign) and len(a_.targets) == 1 and isinstance(a_.targets[0], ast.Name) and "self.contexts" in norm(a_.value)}
+    ctxloops = [x for x in ast.walk(fr) if isinstance(x, ast.For) and ("self.contexts" in norm(x.iter) or any(isinstance(n_, ast.Name) and n_.id in derived for n_ in ast.walk(x.iter)))]
+    if not ctxloops:
+        ctx.R.undecided("FMT-7", "Frame._format has no loop over self.contexts")
+    for lp in ctxloops:
+        gs = guards_of(mod, lp, fr)
+        conj = []
+        for gx, pol in gs:
+            if pol and isinstance(gx, ast.BoolOp) and isinstance(gx.op, ast.And):
+                conj += [norm(v_) for v_ in gx.values]
+            elif pol:
+                conj.append(norm(gx))
+        if "opts.show_contexts" in conj and norm(lp.iter) == "self.contexts":
+            ctx.R.ok("FMT-7", "contexts are rendered iff show_contexts")
+        elif "opts.show_contexts" in conj:
+            ctx.R.undecided("FMT-7", f"Frame._format loops over `{norm(lp.iter)[:40]}` under show_contexts")
+        elif not any("show_contexts" in norm(gx) for gx, _p in gs) and not any(isinstance(x, (ast.Return, ast.Continue)) and any("show_contexts" in norm(gx) for gx, _p in guards_of(mod, x, fr)) for x in ast.walk(fr)):
+            ctx.R.fail("FMT-7", mod, lp, "Frame._format must render contexts iff opts.show_contexts", construct="show_contexts guard")
+        elif any(pol and isinstance(gx, ast.BoolOp) and isinstance(gx.op, ast.Or) and any(norm(v_) == "opts.show_contexts" for v_ in gx.values) for gx, pol in gs):
+            ctx.R.fail("FMT-7", mod, lp, f"Frame._format renders (some of) the frame's contexts under `{norm(gs[-1][0])[:50]}`, i.e. also when show_contexts is off: with show_contexts=False the text must be "
+                       "exactly the frame series", construct="show_contexts guard")
+        else:
+            ctx.R.undecided("FMT-7", "Frame._format: the show_contexts guard of the loop over the contexts is not in a recognised form")
 
 
 # ===================================================================== C19
@@ -492,13 +529,19 @@ def fmt6(ctx: Ctx) -> None:
     # arguments carry the frame's own filename / lineno / funcname
     fs = mod.fn("Frame.as_stdlib_summary")
     c = [x for x in ast.walk(fs) if isinstance(x, ast.Call) and norm(x.func) == "traceback.FrameSummary"][0]
-    if [norm(a) for a in c.args] == ["self.filename", "self.lineno", "self.funcname"]:
+    def _fs_args(c_: ast.Call) -> List[str]:
+        # traceback.FrameSummary(filename, lineno, name, ...): positional or by keyword
+        kw_ = {k_.arg: norm(k_.value) for k_ in c_.keywords if k_.arg}
+        pos_ = [norm(a_) for a_ in c_.args]
+        return [pos_[i_] if i_ < len(pos_) else kw_.get(nm_, "?") for i_, nm_ in enumerate(("filename", "lineno", "name"))]
+    if _fs_args(c) == ["self.filename", "self.lineno", "self.funcname"]:
         ctx.R.ok("FMT-6", "Frame.as_stdlib_summary carries (filename, lineno, funcname) in FrameSummary's order")
     else:
         ctx.R.fail("FMT-6", mod, c, "the frame's FrameSummary must carry its filename, line number and function name in that order")
     cs = mod.fn("Context._frame_summaries")
     c = [x for x in ast.walk(cs) if isinstance(x, ast.Call) and norm(x.func) == "traceback.FrameSummary"][0]
-    if norm(c.args[0]) == "parent.filename" and norm(c.args[1]) == "self.start_line or parent.lineno" and norm(c.args[2]).startswith("parent.funcname"):
+    a3 = _fs_args(c)
+    if a3[0] == "parent.filename" and a3[1] == "self.start_line or parent.lineno" and a3[2].startswith("parent.funcname"):
         ctx.R.ok("FMT-6", "a context's entry points at the with-line (start_line, else the frame's line) of the parent frame's file/function")
     else:
         ctx.R.fail("FMT-6", mod, c, "a context's FrameSummary must be (parent.filename, start_line or parent.lineno, parent.funcname + info)")
